@@ -5,7 +5,7 @@
 export GOFLAGS=-mod=mod GOPROXY=off GOSUMDB=off GOTOOLCHAIN=local
 patch=$1; demo=$2; shift 2
 d=$(mktemp -d); out=$(mktemp -d); trap "rm -rf $d $out" EXIT
-cp -r /repo/. $d/; rm -rf $d/.git
+cp -r ${SEED_REPO:-/repo}/. $d/; rm -rf $d/.git
 # demo on the unpatched copy
 cp $demo $d/zz_demo_test.go
 (cd $d && go test -vet=off -count=1 -timeout 120s -run 'Demo' . >$out/demo0.txt 2>&1); r0=$?
@@ -16,7 +16,7 @@ rm $d/zz_demo_test.go
 (cd $d && go test -vet=off -count=1 -timeout 300s ./... >$out/suite.txt 2>&1); rs=$?
 echo "CONFIRM demo-without-patch=$([ $r0 = 0 ] && echo pass || echo FAIL) demo-with-patch=$([ $r1 = 0 ] && echo PASS || echo fail) suite-with-patch=$([ $rs = 0 ] && echo pass || echo FAIL)"
 for prop in "$@"; do
-  GOVC_REPO=$d GOVC_OUT=$out /verif/bin/govc check $prop > $out/check-$prop.txt 2>&1; rc=$?
+  GOVC_REPO=$d GOVC_OUT=$out ${GOVC_BIN:-/verif/bin/govc} check $prop > $out/check-$prop.txt 2>&1; rc=$?
   echo "CHECK $prop exit=$rc $(grep -c '^VIOLATION' $out/check-$prop.txt) violations"
   grep '^VIOLATION\|ENGINE-ERROR\|engine error' $out/check-$prop.txt | sed 's/replay=[^ ]* //' | cut -c1-220 | head -6
 done
